@@ -1233,6 +1233,19 @@ def m_cell_take(eng, st, args, info):
     return [(st, v)]
 
 
+def m_cell_replace(eng, st, args, info):
+    """Cell::replace(&self, v): returns the old value, stores v (a get followed by a set)."""
+    loc = eng.deref_loc(args[0])
+    v = eng.read_loc(st, loc)
+    if v[0] == "adt" and v[1].startswith("core::cell::Cell"):
+        v = v[3][0]
+    else:
+        v = ("cell_value", v)
+    eng.write_loc(st, loc, ("adt", "core::cell::Cell", "Cell", (args[1],)))
+    st.trace.append(("cell_replace", args[0], args[1]))
+    return [(st, v)]
+
+
 def m_cell_new(eng, st, args, info):
     return [(st, ("adt", "core::cell::Cell", "Cell", (args[0],)))]
 
@@ -1261,6 +1274,44 @@ def m_option_map(eng, st, args, info):
         res = eng.call_value(st, f, [o[3][0]], info["depth"])
         return [(s, _opt_some(r)) for s, r in res]
     return [(st, ("opt_map", o, f))]
+
+
+def m_unwrap_or_else(eng, st, args, info):
+    o, f = args
+    if o[0] == "adt" and o[2] == "Some":
+        return [(st, o[3][0])]
+    if o[0] == "adt" and o[2] == "None":
+        return eng.call_value(st, f, [], info["depth"])
+    return None
+
+
+def m_unwrap_or(eng, st, args, info):
+    o, d = args
+    if o[0] == "adt" and o[2] == "Some":
+        return [(st, o[3][0])]
+    if o[0] == "adt" and o[2] == "None":
+        return [(st, d)]
+    return None
+
+
+def m_bool_then(eng, st, args, info):
+    """bool::then(self, f): Some(f()) if self else None; an opaque bool splits the path."""
+    b, f = args
+    outs = []
+    if is_const(b):
+        cases = [(st, bool(b[1]))]
+    else:
+        cases = []
+        for v in (1, 0):
+            s = st.fork()
+            s.cond.append((eng.freeze(s, b), v))
+            cases.append((s, bool(v)))
+    for s, truth in cases:
+        if truth:
+            outs.extend((s2, _opt_some(r)) for s2, r in eng.call_value(s, f, [], info["depth"]))
+        else:
+            outs.append((s, OPT_NONE))
+    return outs
 
 
 def m_option_is(which):
@@ -1601,6 +1652,11 @@ DEFAULT_MODELS = {
     "core::sync::atomic::Atomic::fetch_update": m_atomic("fetch_update"),
     "core::cmp::Ordering::reverse": m_reverse,
     "core::cmp::Ordering::then_with": m_then_with,
+    "core::option::Option::unwrap_or_else": m_unwrap_or_else,
+    "core::option::Option::unwrap_or": m_unwrap_or,
+    "core::bool::then": m_bool_then,
+    "core::bool::<impl bool>::then": m_bool_then,
+    "core::cell::Cell::replace": m_cell_replace,
     "core::cmp::Ordering::then": m_then,
     "core::intrinsics::discriminant_value": m_discriminant_value,
     "core::num::count_ones": m_intrinsic1("count_ones", lambda a: I(bin(a[1] & ((1 << MASKS[a[2]]) - 1)).count("1"), "u32")),
